@@ -154,10 +154,19 @@ def run(ctx):
     ctx.check("distinct-headers", TF, len(hdr) == 6 and len(set(hdr)) == 6, "the three testament forms carry pairwise distinct headers")
     ge = repo.func(TF, "Testament._get_entries")
     ctx.check("entries-source", f"{TF}:Testament._get_entries", any(call_attr(c) == "list_files" and any(k.arg == "include_root" and norm(k.value) == "self.include_root" for k in c.keywords) for c in calls_in(ge)), "entries come from tree.list_files(include_root=self.include_root)")
+    rets = [r for r in walk_own(ge) if isinstance(r, ast.Return)]
+    ctx.check("entries-source", f"{TF}:Testament._get_entries", len(rets) == 1 and any(call_attr(c) == "list_files" for c in calls_in(rets[0])) and not any(isinstance(n, ast.Call) and norm(n.func) in ("isinstance", "type") for n in ast.walk(ge)), "the entries have one source for every tree / repository format (no dispatch on the inventory type, a single return built from list_files)", construct="; ".join(norm(r)[:60] for r in rets), message="_get_entries takes its entries from a second, format-specific source: the testament of the same revision can differ between repository formats (ordering / root handling of the other walk)")
+    # ---- the attested timestamp has the resolution revisions are stored with -----------------------------------
+    RP = "breezy/repository.py"
+    fcb = repo.func(RP, "CommitBuilder.__init__")
+    tsv = [s_.value for s_ in walk_own(fcb) if isinstance(s_, ast.Assign) and norm(s_.targets[0]) == "self._timestamp"]
+    ctx.check("timestamp-resolution", f"{RP}:CommitBuilder.__init__", bool(tsv) and all(isinstance(v, ast.Call) and norm(v.func) == "round" and len(v.args) == 2 and norm(v.args[1]) == "3" for v in tsv), "the commit timestamp is restricted to the 1 ms resolution revisions are serialised with", construct="; ".join(norm(v) for v in tsv), message="the commit builder keeps a timestamp with more than millisecond resolution: the in-memory revision (and its testament, e.g. for signing) differs from the revision read back from the repository, which was serialised with 3 decimals")
     ctx.sample({"revision_fields_in_output": sorted(got), "entry_fields": sorted(ef), "strict_entry_fields": sorted(sf)})
 
 
 MUTANTS = [
+    Mutant("commit timestamp keeps full resolution", "breezy/repository.py", "        self._timestamp = round(timestamp, 3)\n", "        self._timestamp = timestamp\n", expect="timestamp-resolution"),
+    Mutant("CHK inventories walked through another iterator", TF, "    def _get_entries(self):\n        return (", "    def _get_entries(self):\n        inv = getattr(self.tree, \"root_inventory\", None)\n        if type(inv).__name__ == \"CHKInventory\":\n            return iter(sorted(inv.iter_entries_by_dir()))\n        return (", expect="entries-source"),
     Mutant("committer line dropped", TF, "        a(f\"committer: {self.committer}\\n\")\n", "", expect="field-reaches-output"),
     Mutant("revision properties iterated unsorted", TF, "        for name, value in sorted(self.revprops.items()):", "        for name, value in self.revprops.items():", expect="sorted-iteration"),
     Mutant("executable omitted from the strict form", TF, "        l += {True: \" yes\\n\", False: \" no\\n\"}[ie.executable]", "        l += \"\\n\"", expect="entry-field-reaches-output"),
